@@ -107,11 +107,20 @@ def rule_auto(ctx, rep):
 def rule_witnesses(ctx, rep, prefix="c13_"):
     cfgs = sorted(set(c for c, d in ctx.configs))
     total = 0
-    for c in cfgs:
+    from concurrent.futures import ThreadPoolExecutor
+
+    def one(c):
         try:
-            res = witness.run_witnesses(c)
+            return witness.run_witnesses(c)
         except extract.BuildError as e:
-            rep.bad("BUILD", "witness-rlib/" + c, str(e), None, c)
+            return e
+
+    with ThreadPoolExecutor(max_workers=4) as ex:
+        results = dict(zip(cfgs, ex.map(one, cfgs)))
+    for c in cfgs:
+        res = results[c]
+        if isinstance(res, extract.BuildError):
+            rep.bad("BUILD", "witness-rlib/" + c, str(res), None, c)
             continue
         res = [r for r in res if r["name"].startswith(prefix)]
         if not res:
